@@ -13,6 +13,7 @@ struct RefPeer
 	struct Rec { std::string type; Flds body; std::string stime; bool app; bool emitted; };
 	World& w; unsigned out_next = 1, in_expected = 1; std::map<unsigned, Rec> sent; bool connected = false, logged_on = false;
 	size_t seen = 0; std::vector<std::string> all_app_ids; bool sent_logout = false; int resend_answers = 0, gapfills = 0, my_resend_requests = 0;
+	int cut_after = -1; bool cut_done = false;   // fault: the link drops after this many frames of the next resend answer
 	explicit RefPeer(World& world) : w(world) {}
 
 	std::string frame(const std::string& type, unsigned seq, const Flds& body, bool possdup, const std::string& orig)
@@ -38,8 +39,10 @@ struct RefPeer
 	{
 		++resend_answers;
 		unsigned last = out_next - 1; if (E == 0 || E > last) E = last;
+		int frames = 0;
 		for (unsigned s = B; s <= E;)
 		{
+			if (cut_after >= 0 && frames++ >= cut_after) { cut_after = -1; cut_done = true; connected = false; logged_on = false; sim::count("fault_link_drop_inside_resend_answer"); return; }
 			auto it = sent.find(s);
 			if (it != sent.end() && it->second.app) { w.peer.send(frame("D", s, it->second.body, true, it->second.stime)); ++s; }
 			else
@@ -58,7 +61,7 @@ struct RefPeer
 		{
 			const Msg& m = w.out[seen].m; unsigned seq = (unsigned)m.num(34);
 			if (w.out[seen].conn != w.conn_no) continue;
-			if (m.type() == "2") { on_resend_request((unsigned)m.num(7), (unsigned)m.num(16)); did = true; }
+			if (m.type() == "2") { on_resend_request((unsigned)m.num(7), (unsigned)m.num(16)); did = true; if (cut_done) return true; }
 			if (m.type() == "1") { send("0", { {112, m.get(112)} }); did = true; }
 			// lenient receive side: never logs the session out
 			if (m.type() == "4" && m.gapfill()) { if ((unsigned)m.num(36) > in_expected) in_expected = (unsigned)m.num(36); continue; }
@@ -91,7 +94,8 @@ struct C20 : drv::Harness
 			if (w < 35) p.ops.push_back(Op("papp"));
 			else if (w < 45) p.ops.push_back(Op("padmin"));
 			else if (w < 58) p.ops.push_back(Op("app"));
-			else if (w < 72) p.ops.push_back(Op("disconnect"));
+			else if (w < 68) p.ops.push_back(Op("disconnect"));
+			else if (w < 72) p.ops.push_back(Op("cut_next_resend", { rng.range(0, 3) }));
 			else if (w < 88) p.ops.push_back(Op("reconnect", { rng.chance(0.3) }));     // arg: restart the session process (file store) instead of just reconnecting
 			else p.ops.push_back(Op("silence", { rng.range(10, 3000) }));
 		}
@@ -111,7 +115,12 @@ struct C20 : drv::Harness
 
 		auto exchange = [&]()
 		{
-			for (int round = 0; round < 12; ++round) { w.settle(); if (!m.react()) break; }
+			for (int round = 0; round < 12; ++round)
+			{
+				w.settle(); bool did = m.connected && m.react();
+				if (m.cut_done) { m.cut_done = false; ++disconnects; w.settle(); w.drop_connection(); return; }   // the link dropped inside the model's resend answer
+				if (!did) break;
+			}
 			w.settle();
 		};
 		auto check_alive = [&](const std::string& when)
@@ -134,6 +143,7 @@ struct C20 : drv::Harness
 			m.connected = true; m.logged_on = false; m.seen = w.out.size() > 0 ? m.seen : 0;
 			if (w.initiator) w.settle();
 			m.react();                                             // sees the session's Logon (initiator)
+			if (m.cut_done) { m.cut_done = false; ++disconnects; w.settle(); w.drop_connection(); return; }
 			m.send("A", { {98, "0"}, {108, std::to_string(w.hb)} }, true);
 			m.logged_on = true;
 			exchange();
@@ -148,6 +158,7 @@ struct C20 : drv::Harness
 			else if (op.k == "padmin") m.send("0", {});
 			else if (op.k == "app") { if (m.connected && w.alive()) w.app_send(w.next_app_id()); }
 			else if (op.k == "silence") sim::advance(op.arg(0) * 1000000ll);
+			else if (op.k == "cut_next_resend") m.cut_after = (int)op.arg(0);
 			else if (op.k == "disconnect") { if (m.connected) { m.connected = false; m.logged_on = false; ++disconnects; w.settle(); w.drop_connection(); sim::count("fault_disconnect"); } }
 			else if (op.k == "reconnect") { if (!m.connected) { ++reconnects; connect(op.arg(0) != 0); sim::count(op.arg(0) ? "fault_session_restart" : "reconnect"); } }
 			if (m.connected) { exchange(); check_alive("after op#" + std::to_string(i) + " " + op.k); }
@@ -155,6 +166,7 @@ struct C20 : drv::Harness
 		// final fault-free stretch: link up, one more message from the counterparty so that any gap is noticed
 		if (r.v.empty())
 		{
+			m.cut_after = -1;                                    // faults have stopped
 			if (!m.connected) { ++reconnects; connect(false); }
 			if (r.v.empty()) { m.send("D", Peer::order_body("FINAL")); exchange(); check_alive("in the final fault-free stretch"); }
 			if (r.v.empty()) { sim::advance(50000000); exchange(); check_alive("in the final fault-free stretch"); }
